@@ -1,4 +1,6 @@
-From Grevm Require Import Base.Util Reserve.Planner.
+From Grevm Require Import Base.Util Reserve.Planner Reserve.Journal Reserve.Rule Reserve.Funding.
 Require Extraction. Require ExtrOcamlBasic.
 Extraction Language OCaml.
-Extraction "extract/reserve.ml" max_balance_spending required_after required_spec pinit run_queries.
+Extraction "extract/reserve.ml" max_balance_spending required_after required_spec pinit run_queries
+  delegated_debits_since balance_before_entry walk_back_checked has_reserve_violation
+  reserve_violation effective_reserve step req_after.
